@@ -226,3 +226,128 @@ func firstN(l []map[string]interface{}, n int) []map[string]interface{} {
 	}
 	return l
 }
+
+// RunCrash: n times: a production-build server is started in its own network
+// namespace, builds up state, reports "ready" and keeps writing; the driver
+// SIGKILLs it a moment later (the delay varies with the seed) and a second
+// process starts a production server on the directory and judges it (C05).
+func RunCrash(r *ev.Result, b run.Batch, seed int64, n int) {
+	bin, err := Build()
+	if err != nil {
+		r.Inconc(err.Error())
+		return
+	}
+	if !canUnshare() {
+		r.Count("prodwt.no_network_namespace", 1)
+		r.Note("production crash episodes need a private network namespace (fixed ports); skipped")
+		return
+	}
+	wrap := func(args ...string) *exec.Cmd {
+		a := append([]string{"-n", "--", "sh", "-c", `ip link set lo up && exec "$0" "$@"`, bin}, args...)
+		cmd := exec.Command("unshare", a...)
+		for _, kv := range os.Environ() {
+			k := strings.ToUpper(kv[:strings.Index(kv+"=", "=")])
+			if strings.HasSuffix(k, "_PROXY") || k == "SSL_CERT_FILE" || k == "SSL_CERT_DIR" {
+				continue
+			}
+			cmd.Env = append(cmd.Env, kv)
+		}
+		return cmd
+	}
+	for i := 0; i < n; i++ {
+		work := filepath.Join(b.Dir, fmt.Sprintf("prodcrash%d", i))
+		os.MkdirAll(work, 0755)
+		es := seed*1000 + int64(i)
+		run.Op("production-build crash episode seed=%d", es)
+		serve := wrap(work, fmt.Sprint(es), "crash-serve")
+		var se bytes.Buffer
+		serve.Stderr = &se
+		out, err := serve.StdoutPipe()
+		if err != nil || serve.Start() != nil {
+			r.Inconc("cannot start the production server process")
+			return
+		}
+		ready := make(chan map[string]interface{}, 1)
+		go func() {
+			sc := bufio.NewScanner(out)
+			for sc.Scan() {
+				var e map[string]interface{}
+				if json.Unmarshal(sc.Bytes(), &e) == nil && (e["ev"] == "ready" || e["result"] != nil) {
+					ready <- e
+					return
+				}
+			}
+			ready <- nil
+		}()
+		var rd map[string]interface{}
+		select {
+		case rd = <-ready:
+		case <-time.After(90 * time.Second):
+		}
+		if rd != nil && rd["ev"] == "ready" {
+			time.Sleep(time.Duration(5+es%9*7) * time.Millisecond) // the kill lands somewhere in the running workload
+		}
+		serve.Process.Kill()
+		serve.Wait()
+		r.Eval(1)
+		if rd == nil || rd["ev"] != "ready" {
+			if line := run.CrashLine(se.String()); line != "" {
+				r.Violationf("crash-production-build:"+run.Normalize(line), map[string]interface{}{"seed": es, "stderr_tail": tailStr(se.String(), 3000)}, "production-tag server process died before it was killed: %s", line)
+			} else {
+				r.Inconc(fmt.Sprintf("production crash episode: the serving process never became ready: %v; stderr %.300s", rd, se.String()))
+			}
+			os.RemoveAll(work)
+			continue
+		}
+		acked, _ := rd["acked_reports"].(float64)
+		now0, _ := rd["now"].(float64)
+		rec := wrap(work, fmt.Sprint(es), fmt.Sprintf("crash-recover:%d:%d", int(acked), uint32(now0)))
+		var so, se2 bytes.Buffer
+		rec.Stdout, rec.Stderr = &so, &se2
+		done := make(chan error, 1)
+		go func() { done <- rec.Run() }()
+		select {
+		case <-done:
+		case <-time.After(150 * time.Second):
+			rec.Process.Kill()
+			r.Inconc("production crash episode: the recovering process did not finish within 150 s")
+			os.RemoveAll(work)
+			continue
+		}
+		os.RemoveAll(work)
+		replay := map[string]interface{}{"seed": es, "ready": rd, "stderr_tail": tailStr(se2.String(), 3000), "batch": b}
+		if line := run.CrashLine(se2.String()); line != "" {
+			r.Violationf("crash-production-build:"+run.Normalize(line), replay, "production-tag server process died while recovering from a SIGKILL: %s", line)
+			continue
+		}
+		var result map[string]interface{}
+		for _, ln := range strings.Split(so.String(), "\n") {
+			var e map[string]interface{}
+			if json.Unmarshal([]byte(ln), &e) == nil && e["result"] != nil {
+				result = e
+			}
+		}
+		switch {
+		case result == nil:
+			r.Inconc(fmt.Sprintf("production crash episode: no result from the recovering process; stderr %.300s", se2.String()))
+		case result["result"] == "violated":
+			ps, _ := result["problems"].([]interface{})
+			for _, p := range ps {
+				txt := strings.TrimPrefix(fmt.Sprint(p), "C05:")
+				class := txt
+				if j := strings.Index(txt, ":"); j > 0 {
+					class = txt[:j]
+				}
+				r.Violationf("production-build:"+class, replay, "after SIGKILL of a production server: %s", txt)
+			}
+		case result["result"] == "held":
+			r.Count("prodwt.crash.recovered", 1)
+			if f, ok := result["reports_recovered"].(float64); ok {
+				r.Count("prodwt.crash.reports_recovered", int64(f))
+			}
+			r.Nontrivial(fmt.Sprintf("prodwt/crash/%d", es))
+		default:
+			r.Inconc(fmt.Sprintf("production crash episode: %v", result["why"]))
+		}
+	}
+}
